@@ -39,6 +39,8 @@ def opt_cfgs():
         dict(precond=["shampoo", {}], graft=["adam", 0.5, 1e-1], betas=[0.5, 0.5], momentum=0.5, wd=0.5, lr=0.25, start=2),
         dict(precond=["soap", {}], graft=None, betas=[0.5, 0.5], lr=0.25, start=1),
         dict(precond=["shampoo", {}], graft=["sgd"], betas=[0.5, 1.0], bias_corr=False, momentum=0.5, nesterov=True, lr=0.25, start=2),
+        # merging switched off: recovered sub-tensors keep their size-1 / small dimensions (a (1,3) piece is a 2-D block)
+        dict(precond=["shampoo", {}], graft=["adam", 0.5, 1e-1], betas=[0.5, 0.5], lr=0.25, start=1, merge=False, max_dim=4),
     ]
 
 
@@ -98,7 +100,7 @@ def fsdp_case(torch, cfg_kw, shape, a, b, hist, seed):
     msgs = []
     shape = tuple(shape)
     n = prod(shape)
-    cfg = seq.cfg_with(shapes=[[n], [3]], max_dim=3, merge=True, seed=seed, **cfg_kw)
+    cfg = seq.cfg_with(shapes=[[n], [3]], seed=seed, **{"max_dim": 3, "merge": True, **cfg_kw})
     full0 = torch.tensor(seq.init_param(0, (n,), seed), dtype=torch.float32)
     p0 = torch.nn.Parameter(full0[a:b].clone())
     p1 = torch.nn.Parameter(torch.tensor(seq.init_param(1, (3,), seed), dtype=torch.float32))
@@ -246,7 +248,7 @@ def real_fsdp_program(layers, cfg_kw, hist, seed):
                 msgs.append(f"metadata of {md.fqn}: [start_idx, end_idx) does not address the elements held by the local shard")
         if msgs:
             return {"msgs": msgs, "info": info}
-        cfg = seq.cfg_with(shapes=[[1]], max_dim=3, merge=True, seed=seed, **cfg_kw)
+        cfg = seq.cfg_with(shapes=[[1]], seed=seed, **{"max_dim": 3, "merge": True, **cfg_kw})
         kw = seq.ctor_kwargs(cfg)
         opt = DistributedShampoo(params, distributed_config=FSDPShampooConfig(param_to_metadata=meta), **kw)
         # serial twin on the recovered sub-tensors
@@ -366,6 +368,11 @@ def hsdp_units(tier, seed):
                 if tier == "quick" and (i + seed) % 6 != 0:
                     continue
                 units.append({"kind": "hsdp", "R": R, "S": S, "g": g, "comm": comm, "cp": cp, "cfg_kw": oc, "hists": h2 if tier == "thorough" else h2[(i % 4) :: 4], "seed": seed})
+    # always present (the rotation above samples in the quick tier): merging off, and FP16 communication
+    for (R, S) in [(2, 2), (1, 3)] + ([(2, 3), (1, 2)] if tier == "thorough" else []):
+        for cp in (False, True):
+            units.append({"kind": "hsdp", "R": R, "S": S, "g": -1, "comm": "FP32", "cp": cp, "cfg_kw": opt_cfgs()[4], "hists": h2 if tier == "thorough" else h2[cp::8], "seed": seed})
+            units.append({"kind": "hsdp", "R": R, "S": S, "g": -1, "comm": "FP16", "cp": cp, "cfg_kw": opt_cfgs()[1 + cp], "hists": h2 if tier == "thorough" else h2[cp::8], "seed": seed})
     core = [[[1, 1, 1], [1, 1, 1]], [[1, 1, 1], [1, 0, 1]], [[0, 0, 1], [1, 1, 0]]]
     bound = 1 if tier == "quick" else 2
     for (R, S, g) in [(2, 1, 2), (2, 2, 2), (2, 2, 1)]:
@@ -393,7 +400,7 @@ def hsdp_twin(cfg_kw, srank, S, hist, comm, cp, seed):
             twin_shapes.append(list(t.shape))
             owner.append((pi, pos, pos + t.numel()))
             pos += t.numel()
-    cfg = seq.cfg_with(shapes=twin_shapes, max_dim=3, merge=True, seed=seed, **cfg_kw)
+    cfg = seq.cfg_with(shapes=twin_shapes, seed=seed, **{"max_dim": 3, "merge": True, **cfg_kw})
     params = []
     for (pi, x, y), s in zip(owner, twin_shapes):
         full = torch.tensor(seq.init_param(pi, (prod(HSDP_SHAPES[pi]),), seed), dtype=torch.float32)
@@ -447,7 +454,7 @@ def hsdp_program(cfg_kw, R, S, g, comm, cp, hist, seed):
             p = torch.nn.Parameter(full[a:b].clone())
             params.append(p)
             meta[p] = FSDPParameterMetadata(fqn=f"p{pi}", shape=torch.Size(shape), numel=n, start_idx=a, end_idx=b, sharding_strategy=ShardingStrategy.HYBRID_SHARD)
-        cfg = seq.cfg_with(shapes=[[1]], max_dim=3, merge=True, seed=seed, **cfg_kw)
+        cfg = seq.cfg_with(shapes=[[1]], seed=seed, **{"max_dim": 3, "merge": True, **cfg_kw})
         dc = HSDPShampooConfig(param_to_metadata=meta, device_mesh=mesh, communication_dtype=distrun.comm_enum(comm), num_trainers_per_group=g, communicate_params=cp)
         opt = DistributedShampoo(params, distributed_config=dc, **seq.ctor_kwargs(cfg))
         out = []
